@@ -45,3 +45,51 @@ package cheque
 //@   ensures rejected-unchanged: result1 != nil ==> lastPayout(s, ben) == last0
 //@   ensures others-untouched: forall k2 string :: k2 != rckey(ben) ==> (stored(s.store, k2) <==> old(stored(s.store, k2))) && storedval(s.store, k2, SignedCheque) == old(storedval(s.store, k2, SignedCheque))
 //@   ensures cheque-not-modified: cheque.Cheque.Recipient == old(cheque.Cheque.Recipient) && cheque.Cheque.Beneficiary == old(cheque.Cheque.Beneficiary) && bigval(cheque.Cheque.CumulativePayout) == pay
+
+//@ # ---- C33: persisted traffic totals --------------------------------------------------------
+//@ # store keys of the totals (fmt.Sprintf of a prefix and the address: functions of the address;
+//@ # assumed distinct from each other for distinct addresses/prefixes)
+//@ spec func rtkey(a common.Address) string
+//@ spec func ttkey(a common.Address) string
+//@ func retrievedTraffic
+//@   trusted
+//@   ensures result == rtkey(chainAddress)
+//@   assigns nothing
+//@ func transferredTraffic
+//@   trusted
+//@   ensures result == ttkey(chainAddress)
+//@   assigns nothing
+
+//@ # what is persisted for a peer (0 when nothing is)
+//@ spec func savedRetrieve(s *chequeStore, a common.Address) int = ite(stored(s.store, rtkey(a)), bigval(storedval(s.store, rtkey(a), big.Int)), 0)
+//@ spec func savedTransfer(s *chequeStore, a common.Address) int = ite(stored(s.store, ttkey(a)), bigval(storedval(s.store, ttkey(a), big.Int)), 0)
+
+//@ func (*chequeStore).PutRetrieveTraffic
+//@   property C33
+//@   requires s.store != nil && traffic != nil
+//@   ensures persisted: result == nil ==> savedRetrieve(s, chainAddress) == bigval(traffic)
+//@   ensures failed-keeps: result != nil ==> savedRetrieve(s, chainAddress) == old(savedRetrieve(s, chainAddress))
+//@   ensures others-untouched: forall k2 string :: k2 != rtkey(chainAddress) ==> (stored(s.store, k2) <==> old(stored(s.store, k2))) && storedval(s.store, k2, big.Int) == old(storedval(s.store, k2, big.Int))
+//@   ensures argument-untouched: bigval(traffic) == old(bigval(traffic))
+
+//@ func (*chequeStore).PutTransferTraffic
+//@   property C33
+//@   requires s.store != nil && traffic != nil
+//@   ensures persisted: result == nil ==> savedTransfer(s, chainAddress) == bigval(traffic)
+//@   ensures failed-keeps: result != nil ==> savedTransfer(s, chainAddress) == old(savedTransfer(s, chainAddress))
+//@   ensures others-untouched: forall k2 string :: k2 != ttkey(chainAddress) ==> (stored(s.store, k2) <==> old(stored(s.store, k2))) && storedval(s.store, k2, big.Int) == old(storedval(s.store, k2, big.Int))
+//@   ensures argument-untouched: bigval(traffic) == old(bigval(traffic))
+
+//@ func (*chequeStore).GetRetrieveTraffic
+//@   property C33
+//@   requires s.store != nil
+//@   ensures never-nil: traffic != nil && fresh(traffic)
+//@   ensures reads-what-was-persisted: err == nil ==> bigval(traffic) == savedRetrieve(s, chainAddress)
+//@   assigns nothing
+
+//@ func (*chequeStore).GetTransferTraffic
+//@   property C33
+//@   requires s.store != nil
+//@   ensures never-nil: traffic != nil && fresh(traffic)
+//@   ensures reads-what-was-persisted: err == nil ==> bigval(traffic) == savedTransfer(s, chainAddress)
+//@   assigns nothing
